@@ -7,3 +7,27 @@ claim("C01", "bounded-exhaustive enumeration of (variant, length, pattern, outle
       "Every one-shot digest and new/update/finalize path is executed for every length 0..=4B+1 (quick 0..=2B+1) of every variant, every BLAKE2 outlen x keylen, "
       "and compared with an independent implementation; exhaustive over the stated shape space, content from a fixed pattern alphabet.",
       "Trusts hashlib/OpenSSL, the validated python Keccak, the executor's op interpreter and rustc.", "DESIGN.md section 3 C01")
+
+claim("C02", "explicit-state BFS (tree to depth 3/4, graph until frontier empty) over histories of real hash contexts vs reference digests in every state",
+      "Every sequence of update/update_mut/fork/reset/finalize_reset/finalize(/reset_with_key/finalize_reset_with_key) letters up to the depth bound, and every "
+      "partition of messages up to 4B+1 bytes into alphabet chunks, is executed on the real contexts of all 36 context types; in every state three probe digests of "
+      "clones must equal the model.",
+      "Trusts hashlib/validated Keccak; chunk content is a position-determined pattern; graph merging keyed on model state + observed probe digests.", "DESIGN.md section 3 C02")
+claim("C03", "bounded-exhaustive product of (variant, rounds, key length, key, nonce, start block incl. counter boundaries via hooks, length) on real contexts and on the portable engine vs python spec models",
+      "The full product of the stated alphabets is executed, including 32-bit wrap and 64-bit carry boundaries reached through cfg-guarded counter setters, on the SSE2 "
+      "contexts and on the portable engine through the hook wrapper.",
+      "Trusts the python ChaCha/Salsa models (validated by RFC/draft/ECRYPT/NaCl vectors) and the hook setters.", "DESIGN.md section 3 C03")
+claim("C04", "explicit-state BFS over histories {process, process_mut, seek, clone} of real cipher contexts and {bytes, fill_bytes, fill_slice, u32, u64} of the DRG vs a position-indexed keystream model",
+      "Every letter sequence to depth 3/4 with up to two live contexts, every partition of 4 blocks + 1 byte per seek in graph mode, and every DRG request sequence to depth 3 "
+      "over prior buffer contents, with the next 65 keystream bytes of a clone checked in every state.",
+      "Trusts the keystream models of C03; DRG u32/u64 big-endian convention as documented.", "DESIGN.md section 3 C04")
+claim("C05", "bounded-exhaustive enumeration of keys x messages (every length 0..=80, crafted wrap-around blocks) x chunkings (all 2-splits, 3-splits, depth-3 chunk sequences) vs big-integer Poly1305",
+      "All listed keys, every message length 0..=80, every cut point, accumulator values p-2..p+4 and the RFC 8439 A.3 inputs are executed on the real MAC.",
+      "Trusts python big-integer arithmetic.", "DESIGN.md section 3 C05")
+claim("C06", "product enumeration of one-shot AEAD shapes plus explicit-state BFS of the incremental phase machine (graph mode to frontier-empty, fork tree) vs RFC 8439 model",
+      "Every (key length, AAD length, plaintext length) shape one-shot, and every partition of AAD (<=33/51 bytes) and data (<=130/195 bytes) across "
+      "add_data/encrypt/encrypt_mut/decrypt/decrypt_mut for rounds 8/12/20, with the tag of a finalized clone checked in every state.",
+      "Trusts the python AEAD model (RFC 8439 2.8.2 vector) and the ChaCha model.", "DESIGN.md section 3 C06")
+claim("C07", "bounded-exhaustive mutation enumeration (every tag/nonce/key bit, boundary bits of CT/AAD, truncation, extension, boundary moves, swaps) through three decrypt interfaces with computed verdicts",
+      "For every base shape each mutation is decided by the one-shot and two incremental decryptors; the expected verdict is computed from the model tag of exactly the supplied inputs.",
+      "Trusts the python AEAD model; long inputs are bit-flipped only at first/last/16-byte-boundary bytes.", "DESIGN.md section 3 C07")
